@@ -2,6 +2,9 @@ import Sonic.Props.C05
 import Sonic.Props.C09
 import Sonic.Props.C14
 import Sonic.Props.C01
+import Sonic.Props.C06
+import Sonic.Props.C10
+import Sonic.Props.C20
 
 /-!
 # C15 — All supported x86 build configurations compute identical results
@@ -81,5 +84,56 @@ theorem C15_parse_width_independent (pad₁ pad₂ bs : List Nat)
   rcases h5 with h | ⟨_, q, hq⟩
   · exact Or.inl h
   · exact Or.inr ⟨q, hq⟩
+
+/-- **Serialisation produces identical bytes in every configuration**: any two configurations (vector width of `Quote`, sanitizer tail,
+    strict write limit) that print doubles with the same `F64toa` give byte-identical buffers for every finite well-formed document
+    and any write-buffer histories - both equal the width-free reference printer.  Corollary of `C06_serialize_eq_render`. -/
+theorem C15_serialize_config_independent (cfg₁ cfg₂ : Sonic.Model.Serialize.Cfg)
+    (h1 : Sonic.Proofs.Serialize.CfgOK cfg₁) (h2 : Sonic.Proofs.Serialize.CfgOK cfg₂) (hf : cfg₁.ftoa = cfg₂.ftoa)
+    (v : Sonic.Spec.JVal) (hwf : Sonic.Spec.Render.WF v = true) (hfin : Sonic.Spec.Render.AllFinite v = true)
+    (n₁ n₂ : Nat) (wb₁ wb₂ : Sonic.Model.Stack.Stk)
+    (i1 : Sonic.Model.Stack.StackInv wb₁) (i2 : Sonic.Model.Stack.StackInv wb₂) :
+    ∃ a sa b sb, Sonic.Model.Serialize.serializeN cfg₁ v n₁ wb₁ = .done Sonic.Gen.kErrorNone a sa ∧
+      Sonic.Model.Serialize.serializeN cfg₂ v n₂ wb₂ = .done Sonic.Gen.kErrorNone b sb ∧ a.buf = b.buf := by
+  obtain ⟨a, sa, e1, r1, _⟩ := Sonic.Props.C06.C06_serialize_eq_render cfg₁ h1 v hwf hfin n₁ wb₁ i1
+  obtain ⟨b, sb, e2, r2, _⟩ := Sonic.Props.C06.C06_serialize_eq_render cfg₂ h2 v hwf hfin n₂ wb₂ i2
+  refine ⟨a, sa, b, sb, e1, e2, ?_⟩
+  rw [hf] at r1
+  rw [r1] at r2
+  exact (Option.some.inj r2)
+
+/-- **On-demand lookup gives the same answer for both widths** on every valid JSON text and every path: either both succeed with
+    slices that the reference parser reads as the same value `u` (the value the path resolves to), or both fail with a lookup error
+    and an empty target.  Corollary of `C10_agree`. -/
+theorem C15_ondemand_width_independent (data : List Nat) (hd : ∀ x ∈ data, x < 256) (hlen : data.length < 2 ^ 64)
+    (junk₁ junk₂ : Nat → Nat → Nat) (hj₁ : ∀ s i, junk₁ s i < 256) (hj₂ : ∀ s i, junk₂ s i < 256)
+    (path : List Sonic.Spec.Pointer.Step) (v : Sonic.Spec.JVal) (hv : Sonic.Spec.Json.parse data = .ok v) :
+    (∀ u, Sonic.Spec.Pointer.at v path = some u →
+      ∃ s₁ t₁ e₁ s₂ t₂ e₂, Sonic.Model.OnDemand.getOnDemand 16 data junk₁ path = .ok (.ok s₁ t₁ t₁) ∧
+        Sonic.Model.OnDemand.getOnDemand 32 data junk₂ path = .ok (.ok s₂ t₂ t₂) ∧
+        Sonic.Spec.Json.parseAt data s₁ = .ok (u, e₁) ∧ Sonic.Spec.Json.parseAt data s₂ = .ok (u, e₂)) ∧
+    (Sonic.Spec.Pointer.at v path = none →
+      ∃ c₁ o₁ c₂ o₂, Sonic.Model.OnDemand.getOnDemand 16 data junk₁ path = .ok (.err c₁ o₁ 0) ∧
+        Sonic.Model.OnDemand.getOnDemand 32 data junk₂ path = .ok (.err c₂ o₂ 0)) := by
+  have a := Sonic.Props.C10.C10_agree 16 (by decide) (by decide) data hd hlen junk₁ hj₁ path v hv
+  have b := Sonic.Props.C10.C10_agree 32 (by decide) (by decide) data hd hlen junk₂ hj₂ path v hv
+  refine ⟨fun u hu => ?_, fun hn => ?_⟩
+  · obtain ⟨s₁, t₁, e₁, g1, p1, _⟩ := a.1 u hu
+    obtain ⟨s₂, t₂, e₂, g2, p2, _⟩ := b.1 u hu
+    exact ⟨s₁, t₁, e₁, s₂, t₂, e₂, g1, g2, p1, p2⟩
+  · obtain ⟨c₁, o₁, g1, _⟩ := a.2 hn
+    obtain ⟨c₂, o₂, g2, _⟩ := b.2 hn
+    exact ⟨c₁, o₁, c₂, o₂, g1, g2⟩
+
+/-- **UpdateLazy gives the same merged value for both widths** (and any stale key-buffer content): both outputs parse to
+    `Spec.Merge.update t s`.  Corollary of `C20_model_eq_spec`. -/
+theorem C15_lazy_width_independent (junk₁ junk₂ : Nat → Nat → Nat) (hj₁ : ∀ s i, junk₁ s i < 256) (hj₂ : ∀ s i, junk₂ s i < 256)
+    (tt st : List Nat) (hbt : ∀ x ∈ tt, x < 256) (hbs : ∀ x ∈ st, x < 256) (t s : Sonic.Spec.JVal)
+    (ht : Sonic.Spec.Json.parse tt = .ok t) (hs : Sonic.Spec.Json.parse st = .ok s) :
+    ∃ o₁ o₂, Sonic.Model.Lazy.updateLazy 16 junk₁ tt st = .ok o₁ ∧ Sonic.Model.Lazy.updateLazy 32 junk₂ tt st = .ok o₂ ∧
+      Sonic.Spec.Json.parse o₁ = Sonic.Spec.Json.parse o₂ := by
+  obtain ⟨o₁, a1, a2⟩ := Sonic.Props.C20.C20_model_eq_spec 16 (by decide) (by decide) junk₁ hj₁ tt st hbt hbs t s ht hs
+  obtain ⟨o₂, b1, b2⟩ := Sonic.Props.C20.C20_model_eq_spec 32 (by decide) (by decide) junk₂ hj₂ tt st hbt hbs t s ht hs
+  exact ⟨o₁, o₂, a1, b1, by rw [a2, b2]⟩
 
 end Sonic.Props.C15
